@@ -148,9 +148,14 @@ def p_manual_stop(s, peering):
     return ev_manual_stop.row(s, fsm)
 
 
-@entry(('C02-Recover-idle',))
+@entry(('C02-Recover-idle', 'state-range'))
 def p_connection_closed(s, peering, pro, disconnect=False):
     fsm = s.get(peering, 'fsm')
+    # FSM.connection_failed reports the close from the transient Active state it inherited from the
+    # passive-capable original; the state is overwritten below when the closed connection is the tracked one
+    s.c.requires(z3.Or(z3.Or([T(s.get(fsm, 'state')) == k for k in (1, 2, 4, 5, 6)]),
+                       z3.And(T(s.get(fsm, 'state')) == ST_ACTIVE,
+                              z3.BoolVal(pro is not None and pro is s.get(peering, 'estab_protocol')))), 'state')
     if pro is not None:
         # callers: connectionLost of a connection we closed, or the FSM after it closed / lost the connection
         tr = s.get(pro, 'transport')
